@@ -1064,3 +1064,63 @@ def _():
     V = space(m)
     v = TestFunction(V)
     return ufl.MaxFacetEdgeLength(m) * v * ds
+
+
+# ---- several rules with structurally identical integrands (shared temporaries / names) ----
+
+
+@reg("two_rules_same_structure_triangle", "c01 c08 c11md c18 c19 q")
+def _():
+    m = mesh("triangle")
+    V = space(m)
+    u, v = TrialFunction(V), TestFunction(V)
+    return u * v * dx(degree=2) + u * v * dx(degree=4)
+
+
+@reg("two_rules_two_coefs_triangle", "c01 c05 c08 c11md c18 c19 q")
+def _():
+    m = mesh("triangle")
+    V = space(m)
+    u, v = TrialFunction(V), TestFunction(V)
+    f, g = ufl.Coefficient(V), ufl.Coefficient(V)
+    return f * u * v * dx(degree=2) + g * u * v * dx(degree=4)
+
+
+@reg("three_rules_same_structure_ds", "c02 c08 c11md c19 q", itypes=("exterior_facet",))
+def _():
+    m = mesh("triangle")
+    V = space(m)
+    v = TestFunction(V)
+    f = ufl.Coefficient(V)
+    return f * v * ds(degree=1) + f * v * ds(degree=2) + f * v * ds(degree=5)
+
+
+@reg("two_rules_same_structure_dS_tet", "c02 c08 c11md c19", itypes=("interior_facet",))
+def _():
+    m = mesh("tetrahedron")
+    V = space(m, "DG", 1)
+    u, v = TrialFunction(V), TestFunction(V)
+    return jump(u) * jump(v) * dS(degree=1) + jump(u) * jump(v) * dS(degree=3)
+
+
+# ---- powers and quotients (backend spelling) ---------------------------------------
+
+
+@reg("powers_triangle", "c01 c08 c09 c16 c18 q")
+def _():
+    m = mesh("triangle")
+    V = space(m)
+    f = ufl.Coefficient(V)
+    k = ufl.Constant(m)
+    v = TestFunction(V)
+    return (f**-2 + f**-3 + f**2 + f**-1 + f**4 + k**f + f**0.5 + 1.0 / (f * f) + (f + k) ** -2) * v * dx(degree=1)
+
+
+@reg("quotients_triangle", "c01 c08 c16 c18 q")
+def _():
+    m = mesh("triangle")
+    V = space(m)
+    f, g = ufl.Coefficient(V), ufl.Coefficient(V)
+    k = ufl.Constant(m)
+    v = TestFunction(V)
+    return (f / g / k + f / (g / k) + (f - g) / (f + g) - f / g * k + -f * -g - (f - (g - k))) * v * dx(degree=1)
